@@ -227,6 +227,7 @@ class PathChecker:
         self.ex.base = list(self.base)
         self.friendly = None
         self.reproduced = 0
+        self.seen = {}
         self.npaths = 0
         self.model_timeout_ms = 5000
 
@@ -324,34 +325,36 @@ class PathChecker:
             core.set_explorer(self.ex)
 
     def _models(self, s, extra_sets, limit):
-        """yield up to `limit` models of solver s, preferring the extra constraint sets in order"""
+        """yield up to `limit` models of the assertions of solver s, preferring the extra constraint sets in order
+        (fresh one-shot solvers: z3's incremental core is much weaker on nonlinear goals)"""
         z3 = self.z3
+        base = list(s.assertions())
         n = 0
         unknowns = 0
         for extra in extra_sets:
             if unknowns >= 2:
                 return
-            s.push()
-            s.add(*extra)
-            blocked = 0
-            while n < limit and blocked < 3:
-                r = self.core.timed_check(s, self.model_timeout_ms)
+            block = []
+            got = 0
+            while n < limit and got < 3:
+                s1 = z3.Solver()
+                s1.add(*base)
+                s1.add(*extra)
+                s1.add(*block)
+                r = self.core.timed_check(s1, self.model_timeout_ms)
                 if r == z3.unknown:
                     unknowns += 1
                 if r != z3.sat:
                     break
-                m = s.model()
+                m = s1.model()
                 yield m
                 n += 1
-                blocked += 1
-                # block this assignment of the declared inputs (numerically)
+                got += 1
                 lits = []
                 for name, kind in self.mk.decl.items():
                     c = self.mk.const(name)
-                    v = m.eval(c, model_completion=True)
-                    lits.append(c != v)
-                s.add(z3.Or(*lits))
-            s.pop()
+                    lits.append(c != m.eval(c, model_completion=True))
+                block.append(z3.Or(*lits))
             if n >= limit:
                 return
 
@@ -441,8 +444,8 @@ class PathChecker:
 
     def _counterexample(self, s, name, res):
         """s holds base+pc+axioms+violation and is sat.  Replay before reporting."""
-        if self.reproduced >= 2:
-            # enough reproduced violations for this configuration already: do not spend solver time
+        if self.seen.get(name, 0) >= 2:
+            # this very obligation was already reproduced (twice) for this configuration: do not spend solver time again
             res['also_sat'].append(name)
             return
         tried = 0
@@ -478,6 +481,7 @@ class PathChecker:
                                           outcome=cout.kind + (':' + type(cout.value).__name__ if cout.kind == 'raise' else ''),
                                           path=''.join('1' if b else '0' for b in self.ex.trace)))
             self.reproduced += 1
+            self.seen[name] = self.seen.get(name, 0) + 1
             return
         res['unreproduced'].append('%s (%d models tried; last: %s)' % (name, tried, last))
 
@@ -487,6 +491,7 @@ class PathChecker:
         obs = self.h.observe(self.inp, out)
         msg = None
         tried = 0
+        left_path = 0
         self.model_timeout_ms = 5000
         dy = self._dyadic()
         for m in self._models(s, [self._friendly() + self._interior() + dy, self._interior() + dy, dy,
@@ -499,7 +504,7 @@ class PathChecker:
                 msg = 'witness: %s' % e
                 continue
             if not self._pc_holds(env):
-                msg = 'float-rounded witness leaves the path'
+                left_path += 1
                 continue
             try:
                 cinp, cout = self.concrete_run(vals)
@@ -515,8 +520,9 @@ class PathChecker:
                                          witness={k: _jsonable(v) for k, v in vals.items()},
                                          float_run=_short(cobs))
                 return
-        if tried == 0:
-            res['validation_skipped'] += 1      # the solver produced no model within the witness budget: not a mismatch
+        if tried == 0 or tried == left_path or msg is None:
+            # no model within the witness budget, or every model left the path once rounded to floats: not a mismatch
+            res['validation_skipped'] += 1
             return
         if self._knife_edge():
             # the path requires an exact equality between computed reals; IEEE rounding can legitimately take the float
@@ -561,6 +567,8 @@ def run_job(job):
             h = mod.make(job['cfg'])
             pc = PathChecker(h)
             _W[key] = pc
+        for k, v in job.get('seen', {}).items():
+            pc.seen[k] = max(pc.seen.get(k, 0), v)
         stack = [list(p) for p in job['prefixes']]
         agg = dict(cfg=job['cfg'].get('name'), paths=0, decisions=0, obligations=0, discharged=0, trivial=0, unknown=[], validation_skipped=0, validation_knife_edge=0,
                    violations=[], unreproduced=[], twins={}, validated=0, validation_failed=[], inconclusive=[],
@@ -653,12 +661,14 @@ def run_property(prop, module, tier, seed=0, workers=None, deadline_s=None, extr
                                  max_paths=2, budget_s=cfgs[i].get('chunk_s', 30)))
     ctx = mp.get_context('fork')
     timed_out = False
+    seen_by_cfg = {}
     last_progress = time.time()
     with ProcessPoolExecutor(max_workers=workers, mp_context=ctx, initializer=_worker_init) as pool:
         running = {}
         while pending_jobs or running:
             while pending_jobs and len(running) < workers * 2:
                 j = pending_jobs.popleft()
+                j = dict(j, seen=dict(seen_by_cfg.get(j['cfg']['name'], {})))
                 running[pool.submit(run_job, j)] = j
             done, _ = wait(list(running), timeout=5, return_when=FIRST_COMPLETED)
             if time.time() - last_progress > 30:
@@ -679,6 +689,9 @@ def run_property(prop, module, tier, seed=0, workers=None, deadline_s=None, extr
                     a = dict(cfg=j['cfg']['name'], error='worker died: %r' % e, paths=0, leftover=[], functions=[])
                 p = per[j['cfg']['name']]
                 functions.update(a.get('functions', []))
+                for v in a.get('violations', []):
+                    seen_by_cfg.setdefault(j['cfg']['name'], {})
+                    seen_by_cfg[j['cfg']['name']][v['obligation']] = seen_by_cfg[j['cfg']['name']].get(v['obligation'], 0) + 1
                 if a.get('error'):
                     p['errors'].append(a['error'])
                     continue
@@ -705,7 +718,7 @@ def run_property(prop, module, tier, seed=0, workers=None, deadline_s=None, extr
                         g = j.get('gen', 0) + 1
                         # ramp up: tiny chunks first so that the frontier spreads over the workers quickly
                         mp_ = min(j['cfg'].get('chunk', 40), 2 ** (g + 1))
-                        pending_jobs.append(dict(j, prefixes=chunk, gen=g, max_paths=mp_))
+                        pending_jobs.append(dict(j, prefixes=chunk, gen=g, max_paths=mp_, seen=dict(seen_by_cfg.get(j['cfg']['name'], {}))))
         if timed_out:
             pool.shutdown(wait=False, cancel_futures=True)
             for pr in list(getattr(pool, '_processes', {}).values()):
@@ -734,6 +747,8 @@ def finish(prop, mod, tier, seed, cfgs, per, functions, t0, timed_out, extra_evi
             problems.append('%s: harness error: %s' % (c['name'], p['errors'][0][-1200:]))
         if p['unknown']:
             problems.append('%s: %d obligation(s) undecided (solver unknown), e.g. %s' % (c['name'], len(p['unknown']), p['unknown'][0]))
+        repro_names = {v['obligation'] for v in p['violations']}
+        p['unreproduced'] = [u for u in p['unreproduced'] if u.split(' (')[0] not in repro_names]
         if p['unreproduced']:
             problems.append('%s: %d counterexample(s) did not reproduce on the float code, e.g. %s' % (
                 c['name'], len(p['unreproduced']), p['unreproduced'][0]))
